@@ -414,3 +414,46 @@ def tested_call_discharge(prog, fn, pred, depth=2):
         nonzero_edge = (succ["label"] == "true") != neg
         return nz_ok if nonzero_edge else z_ok
     return edge_ok
+
+
+def knowledge_at(fn, pos):
+    """All flag-knowledge dicts (access path -> bool) with which pos=(block,idx)
+    can be reached, tracking simple flag tests x / !x along the path; a store
+    to the flag, a wait or an unlock forgets it.  See edge_dominated_correlated."""
+    tb, ti = pos
+    seen = set()
+    out = []
+    st = [(fn.entry, ())]
+    while st:
+        b, know = st.pop()
+        if (b, know) in seen:
+            continue
+        seen.add((b, know))
+        k = dict(know)
+        blk = fn.blocks[b]
+        for j, s_ in enumerate(blk.stmts):
+            if b == tb and j == ti:
+                out.append(dict(k))
+            for lv, op, rhs, w in ir.writes_of(s_):
+                p = ir.ap(lv)
+                if p in k:
+                    del k[p]
+            for c in ir.calls_in(s_):
+                n = c.get("fn") or ""
+                if "wait" in n or "release" in n or "unlock" in n:
+                    k = {}
+        c = blk.cond_node()
+        flag = _simple_flag(c) if (c is not None and len(blk.succs) == 2) else None
+        for sc in blk.succs:
+            t = sc.get("to")
+            if t is None:
+                continue
+            lab = sc.get("label")
+            k2 = dict(k)
+            if flag is not None and lab in ("true", "false"):
+                val = (lab == "true") != flag[1]
+                if flag[0] in k2 and k2[flag[0]] != val:
+                    continue
+                k2[flag[0]] = val
+            st.append((t, tuple(sorted(k2.items()))))
+    return out
